@@ -307,13 +307,19 @@ func Reply(delivered []byte, from rtgen.Host, payload []byte, how int) (raw []by
 		return nil, 0, err
 	}
 	rp, ok := sc.Path.(*scion.Raw)
-	if !ok {
+	if !ok && how != 0 {
 		return nil, 0, fmt.Errorf("delivered packet has no SCION-type path")
 	}
 	var rev path.Path
 	switch how {
 	case 0:
-		dp, err := snet.DefaultReplyPather{}.ReplyPath(snet.RawPath{PathType: sc.PathType, Raw: append([]byte(nil), rp.Raw...)})
+		// what a host hands to the reply pather: the path type and the raw path bytes of the
+		// received packet, whatever the type (EPIC requests included)
+		rawPath := make([]byte, sc.Path.Len())
+		if err := sc.Path.SerializeTo(rawPath); err != nil {
+			return nil, 0, err
+		}
+		dp, err := snet.DefaultReplyPather{}.ReplyPath(snet.RawPath{PathType: sc.PathType, Raw: rawPath})
 		if err != nil {
 			return nil, 0, err
 		}
@@ -393,4 +399,3 @@ func Tamper(d *rtgen.Desc, field string, idx, bit int) uint64 {
 	}
 	panic("netgen: unknown field " + field)
 }
-
